@@ -95,6 +95,9 @@ func DefaultConv(pkg *Package, t types.Type, pv *Element) types.Type {
 }
 
 func ConvertibleTo(pkg *Package, V, T types.Type) bool {
+	if V == nil || T == nil { // operand without a value, e.g. a call of a function without results
+		return false
+	}
 	pkg.cb.ensureLoaded(V)
 	pkg.cb.ensureLoaded(T)
 	if V == types.Typ[types.UnsafePointer] {
@@ -111,6 +114,9 @@ func AssignableTo(pkg *Package, V, T types.Type) bool {
 }
 
 func AssignableConv(pkg *Package, V, T types.Type, pv *Element) bool {
+	if V == nil || T == nil { // operand without a value, e.g. a call of a function without results
+		return false
+	}
 	pkg.cb.ensureLoaded(V)
 	pkg.cb.ensureLoaded(T)
 	V, T = realType(V), realType(T)
@@ -275,6 +281,9 @@ func assignable(pkg *Package, v types.Type, t *types.Named, pv *internal.Elem) b
 
 func ComparableTo(pkg *Package, varg, targ *Element) bool {
 	V, T := varg.Type, targ.Type
+	if V == nil || T == nil { // operand without a value, e.g. a call of a function without results
+		return false
+	}
 	if v, ok := V.(*types.Basic); ok {
 		if (v.Info() & types.IsUntyped) != 0 {
 			return untypedComparable(pkg, v, varg, T)
@@ -397,12 +406,14 @@ func (p *TemplateSignature) instantiate(pkg *Package, fn *internal.Elem, args []
 			if t.Kind() == types.UntypedInt {
 				switch constant.Val(nargs[i].CVal).(type) {
 				case *big.Int:
-					nargs[i].Type = pkg.utBigInt
+					if pkg.utBigInt != nil { // big-number types are optional
+						nargs[i].Type = pkg.utBigInt
+					}
 				}
 			}
 		}
 	}
-	if p.isOp() {
+	if p.isOp() && len(args) == 2 {
 		// fix binary bigint -> rat
 		if args[0].Type == pkg.utBigRat && args[1].Type == pkg.utBigInt {
 			nargs[1] = &internal.Elem{
